@@ -20,6 +20,8 @@ DYADIC = ("floating-point inputs are dyadic rationals with <= 12 significant "
           "bits on the well-scaled family (|x|<=8, spacing>=1/8), so that the "
           "exact image of every input and midpoint is unambiguous; arbitrary "
           "spacings/offsets are decided with the exact rational scalar")
+PLACEMENTS = ["EQ", "A_IN_B", "B_IN_A", "PARTIAL_L", "PARTIAL_R", "TOUCH",
+              "GAP", "A_EMPTY", "B_EMPTY", "BOTH_EMPTY", "A_POINT", "B_POINT"]
 MODEL = ("reference model: ~300 lines of exact polynomial arithmetic in global "
          "coordinates over boost cpp_rational (harness/model.h), cross-checked "
          "against a value-based recursion at run time")
@@ -473,9 +475,105 @@ reg(Spec(
               "solver) and backward-error oracle (bundled solver) over "
               "generated interpolation problems"))
 
+# ----------------------------------------------------------------------- C17
+
+
+def c17_runs(tier, seed):
+    n = q(tier, 24000, 2000000)
+    return [RunSpec("quad", sc, "plain", n) for sc in ("d", "f", "ld")]
+
+
+reg(Spec(
+    "C17", "Gauss-Legendre quadrature matches the analytic forms where exact",
+    c17_runs,
+    rule=("case k -> spline orders (k mod 5, (k div 5) mod 5), weight degree "
+          "(k div 25) mod 4, quadrature size n in {n_min-1, n_min, n_min+1, "
+          "2*max order} with n_min the smallest n with 2n-1 >= o1+o2+d "
+          "(compiled catalogue n = 1..8), 12 relative placements of the two "
+          "windows on a grid of 6..10 points (second spline on the same grid "
+          "object or an equal twin), general dyadic coefficients and weights. "
+          "The weight is a probe callable that records every abscissa it is "
+          "called with. Oracle: the probe saw exactly n abscissae strictly "
+          "inside every interval common to both windows, none anywhere else "
+          "and none at all without a common interval (for every n, also below "
+          "the exactness bound); where 2n-1 >= o1+o2+d: |numeric - "
+          "BilinearForm{sum w_k X<k>}(m1,m2)| and |numeric - exact integral| "
+          "<= 2^20 eps S with S = sum over common intervals of width * "
+          "(sum|w_k||x|^k)(sum|c1_i|h^i)(sum|c2_j|h^j). Non-trivial: exact "
+          "rule with a non-zero exact integral; distinct by full input."),
+    required=["rule:exact", "rule:below-exactness-bound", "rule:at-the-bound",
+              "sampling-region-checked", "values-compared",
+              "no-common-interval"] +
+             ["place:" + p for p in PLACEMENTS] +
+             ["n:%d" % i for i in range(1, 9)] +
+             ["weight-degree:%d" % i for i in range(4)],
+    assumptions=[DYADIC, "float, double, long double (boost's Gauss-Legendre "
+                 "needs a floating type)"],
+    evaluations="calls",
+    technique="runtime monitor: probe callable recording the sampled "
+              "abscissae + exact-integral oracle over generated spline pairs"))
+
+# ----------------------------------------------------------------------- C18
+
+
+def c18_runs(tier, seed):
+    th = ["-pthread"]
+    runs = [
+        # many short-lived processes: first-use initialisation (function-local
+        # statics, lazily filled tables) happens under contention in each
+        RunSpec("threads", "d", "tsan", q(tier, 96, 4000), shards=q(tier, 32, 400),
+                libs=th),
+        RunSpec("threads", "Q", "tsan", q(tier, 32, 1200), shards=q(tier, 16, 200),
+                libs=th, params={"len": 16}),
+        RunSpec("threads", "d", "nochk", q(tier, 640, 60000), shards=32, libs=th),
+        # forced preemption: the same workload pinned to two cores
+        RunSpec("threads", "d", "nochk", q(tier, 96, 6000), shards=4, libs=th,
+                wrapper=["taskset", "-c", "0,1"], name="threads-pinned"),
+    ]
+    if tier == "thorough":
+        runs += [RunSpec("threads", "d", "tsan-clang", 2000, shards=200, libs=th),
+                 RunSpec("threads", "ld", "nochk", 20000, shards=32, libs=th)]
+    return runs
+
+
+reg(Spec(
+    "C18", "concurrent read-only use is race-free and deterministic", c18_runs,
+    rule=("one case = one round: shared const objects are built (grid + equal "
+          "twin instance, generator, B-spline bases of orders 0..3, splines on "
+          "sub-windows and on the twin grid, an operator with a spline factor, "
+          "const bilinear and linear forms), then 2..32 threads leave a start "
+          "barrier and each runs a script of 24 actions that depends only on "
+          "(seed, round, logical id): evaluate, copy/move/destroy splines, "
+          "supports and grids, a+b, a*b (operands on different grid objects), "
+          "X<1..7>*s, Dx<1..3>*s, shared operator application, shared and "
+          "fresh bilinear/linear forms, generateBSplines<2..4> on the shared "
+          "generator, isZero on five instantiations, linearCombination, "
+          "getData/findElement, comparisons across grid objects, combining "
+          "shared objects with a thread-private equal grid, support algebra, "
+          "numerical quadrature; seed-chosen sched_yield/nanosleep between "
+          "calls. Oracle 1: ThreadSanitizer (any report fails). Oracle 2: each "
+          "thread's digest of all result bit patterns equals the digest of the "
+          "same script run sequentially AFTER the concurrent phase. Runs are "
+          "split over many short-lived processes so that first-use "
+          "initialisation happens under contention, plus one pass pinned to "
+          "two cores. distinct_nontrivial counts distinct (round, order in "
+          "which the threads completed their first action) signatures."),
+    required=["rounds", "operations", "threads:2", "threads:32",
+              "overlap:evaluate|evaluate", "overlap:add|multiply",
+              "overlap:apply-X|apply-X", "overlap:compare|own-grid-instance",
+              "overlap:copy-destroy|copy-destroy",
+              "overlap:bilinear-form|bilinear-form",
+              "overlap:generateBSplines|isZero"],
+    assumptions=["TSan's happens-before analysis covers the code paths that "
+                 "were executed concurrently; the overlap counts are evidence "
+                 "of stress, not the detector", "x86-64, g++ 12 (clang 14 in "
+                 "the thorough tier)"],
+    evaluations="operations",
+    technique="ThreadSanitizer + determinism oracle (per-thread digests vs "
+              "sequential replay) under a stress workload with injected "
+              "yields and core pinning"))
+
 # ------------------------------------------------- pool machine: C03/10/14/15
-PLACEMENTS = ["EQ", "A_IN_B", "B_IN_A", "PARTIAL_L", "PARTIAL_R", "TOUCH",
-              "GAP", "A_EMPTY", "B_EMPTY", "BOTH_EMPTY", "A_POINT", "B_POINT"]
 POOL_RULE = ("one case = one history of 150 steps over a pool of 15 splines "
              "(orders 0..4, three slots each, on a grid of 6..10 points held in "
              "two equal instances, plus one spline per order on a logically "
